@@ -36,3 +36,33 @@ package api
 //@   loop 1 invariant int(total) == idx() && (forall k int :: 0 <= k && k < idx() ==> RoleAt(c, k) == RoleWorker)
 //@   loop 1 invariant isWorker == (exists j int :: 0 <= j && j < idx() && Key(c, j) == id)
 //@   loop 1 invariant isWorker ==> idx < total
+
+// ---- voting power (C14) ----
+
+//@ import "github.com/oasisprotocol/oasis-core/go/common/quantity"
+//@ ghost func QV(q *quantity.Quantity) int { return quantity.Val(q) }
+//@ global QV(&BaseUnitsPerVotingPower) == 16
+
+//@ func VotingPowerFromStake
+//@   props C14
+//@   safety nil panic div
+//@   requires t != nil && quantity.Val(t) >= 0
+//@   modifies nothing
+//@   ensures err == nil ==> result0 >= 1
+//@   ensures err != nil ==> result0 == 0
+//@   ensures distribution == VotingPowerDistributionLinear ==> (err == nil) == (div(quantity.Val(t), 16) <= 9223372036854775807)
+//@   ensures err == nil && distribution == VotingPowerDistributionLinear ==> int(result0) == max(1, div(quantity.Val(t), 16))
+//@   ensures err == nil && distribution == VotingPowerDistributionSqrt && quantity.Val(t) >= 1 ==> int(result0) * int(result0) <= quantity.Val(t) && quantity.Val(t) < (int(result0) + 1) * (int(result0) + 1)
+//@   ensures err == nil && distribution == VotingPowerDistributionSqrt && quantity.Val(t) == 0 ==> result0 == 1
+//@   note linear: one unit of power per 16 base units, at least 1; sqrt: the integer square root of the stake, at least 1; an error only when the power does not fit int64
+
+//@ lemma votingPowerLinearMonotone(a int, b int)
+//@   props C14
+//@   requires 0 <= a && a <= b
+//@   ensures max(1, div(a, 16)) <= max(1, div(b, 16))
+
+//@ lemma votingPowerSqrtMonotone(a int, b int, ra int, rb int)
+//@   props C14
+//@   requires 1 <= a && a <= b && ra >= 1 && rb >= 1 && ra * ra <= a && a < (ra + 1) * (ra + 1) && rb * rb <= b && b < (rb + 1) * (rb + 1)
+//@   ensures ra <= rb
+//@   note voting power is non-decreasing in stake under both distributions (C14: "voting power non-decreasing in stake")
